@@ -19,7 +19,8 @@ TECHNIQUE = 'modal interpreter over emitted lines vs public GState properties af
 LEVEL_TEXT = 'Held on random full-API histories with grid + random arguments; every field is compared after every call.'
 RULE = ("random full-API histories (50-70 calls, numeric arguments from a finite grid plus random "
         "values, S/F words on moves while the tool runs, F via probe, temperatures via halt(S=/R=), "
-        "power_on after tool_off, unit switches); every state field compared after every call; "
+        "power_on after tool_off, unit switches; every other history under user bounds that cut through the grids, so "
+        "that calls are rejected by a bound in mid-history); every state field compared after every call; "
         "distinct = (field, operation after which the field's wire value changed)")
 ASSUMPTIONS = [
     "harness.interp modal semantics (S on bare-S/M3/M4/G0/G1/G38 lines is tool power; S/R on M109/M190/M191 and S on M104/M140/M141 are temperatures)",
@@ -33,7 +34,7 @@ TIERS = {
 }
 FLOORS = {
     "quick": {"counts": {"field_comparisons": 400000, "power_comparisons": 8000,
-                         "parameter_comparisons": 20000}, "keys": 30},
+                         "parameter_comparisons": 20000, "calls_rejected_under_bounds": 1000}, "keys": 30},
     "thorough": {"counts": {"field_comparisons": 20000000}, "keys": 35},
 }
 SPIN_CODE = {"clockwise": "M3", "counter": "M4"}
@@ -61,6 +62,11 @@ def run_case(ctx, col, case):
     s = Session(dp=dp)
     st, m = s.g.state, s.m
     half = Fraction(1, 2 * 10 ** dp)
+    # half of the histories run under user bounds that cut through the argument grids: calls are then
+    # rejected by a bound after other words of the same call were already examined
+    bounds = stateops.random_bounds(rng, s.g) if case % 2 else {}
+    if bounds:
+        col.count("histories_with_bounds")
     log = []
     prev = wire_view(m)
     prev_params = {}
@@ -73,6 +79,8 @@ def run_case(ctx, col, case):
         op = stateops.draw(rng)
         outcome, exc, new, _ = s.call(op.name, *op.args, **op.kwargs)
         col.count("calls")
+        if bounds and outcome == "rejected" and "out of bounds" in str(exc):
+            col.count("calls_rejected_under_bounds")
         log.append(op.render() + [outcome])
         if s.lex_errors:
             col.violation("unparseable-output", ctx.case_ref(case), {"errors": str(s.lex_errors[:2])})
@@ -120,7 +128,7 @@ def run_case(ctx, col, case):
                     isinstance(rep, (int, float)) and close(rep, w))
         if problems:
             col.violation("state-differs-from-wire", ctx.case_ref(case),
-                          {"dp": dp, "after": op.render(), "outcome": outcome, "problems": problems[:4],
+                          {"dp": dp, "bounds": bounds, "after": op.render(), "outcome": outcome, "problems": problems[:4],
                            "history_tail": log[-8:], "last_lines": [ln.raw for ln in s.lines[-6:]]},
                           mechanism="c07:" + problems[0]["field"].split("(")[0])
             return
